@@ -70,3 +70,16 @@ Definition c01_scope (sw : switches) (dt : detection) : bool :=
   negb (sw_matrix sw) &&
   (sw_coalesce sw || no_quant_ident (d_expr dt)) &&
   (negb (sw_shake sw) || shake_input_ok sw dt).
+
+(* ---- with the matrix switch: the trees handed to `matrix` are nested-free and outside the
+        classes D17 (multi-cell row in a negative position), D18/D19, D21 ---- *)
+Definition matrix_input_ok (o : oracles) (ord : hord) (sw : switches) (dt : detection) : bool :=
+  forallb no_nested (all_trees (pre_matrix o ord sw dt)) &&
+  negb (known_d17 o ord sw dt) && negb (known_d18 o ord sw dt) && negb (known_d21 o ord sw dt).
+
+Definition sw_without_matrix (sw : switches) : switches :=
+  {| sw_coalesce := sw_coalesce sw; sw_shake := sw_shake sw; sw_rewrite := sw_rewrite sw; sw_matrix := false |}.
+
+Definition c01_scope_all (o : oracles) (ord : hord) (sw : switches) (dt : detection) : bool :=
+  c01_scope (sw_without_matrix sw) dt &&
+  (negb (sw_matrix sw) || (no_quant_ident (d_expr dt) && matrix_input_ok o ord sw dt)).
